@@ -5,6 +5,29 @@ open NeoFS.Timers
 
 def timerFracs : List (Nat × Nat) := [(1, 2), (1, 1), (3, 2), (0, 1), (2, 3)]
 
+/-- `in=e0|e1` (a new-epoch handler) or `in=d<i>` (sub-epoch handler i) -/
+def timersSite? (s : String) : Option Site :=
+  if s == "e0" || s == "e1" then some .epoch
+  else if s.startsWith "d" then
+    match (s.drop 1).toNat? with
+    | some i => if i < timerFracs.length then some (.delta i) else none
+    | none => none
+  else none
+
+def timersCall? (o : OpLine) : Option Atom :=
+  match o.get? "call" with
+  | some "reset" =>
+    match o.nat? "lt", o.nat? "dur" with
+    | some lt, some dur => some (.rst lt dur)
+    | _, _ => none
+  | some "update" => (o.nat? "t2").map .upd
+  | _ => none
+
+def timersShow (outs : List (Bool × List Bool)) (n : Nat) : String :=
+  let e := (outs.filter (·.1)).length
+  let d := (List.range n).map fun i => (outs.filter fun x => x.2.getD i false).length
+  s!"e={e} d={String.intercalate "," (d.map toString)}"
+
 def timersStep (et : ET) (o : OpLine) : ET × String :=
   match o.name with
   | "new" => (Timers.new timerFracs, "=> ok")
@@ -13,11 +36,20 @@ def timersStep (et : ET) (o : OpLine) : ET × String :=
     | some lt, some dur => (reset et lt dur, "=> ok")
     | _, _ => (et, "=> bad-op")
   | "update" =>
-    match o.nat? "t" with
-    | some t =>
+    match o.nat? "t", o.get? "in" with
+    | some t, none =>
       let (et', fe, fd) := update et t
       (et', s!"=> ok e={if fe then 1 else 0} d={String.intercalate "," (fd.map fun b => if b then "1" else "0")}")
-    | none => (et, "=> bad-op")
+    | some t, some site =>
+      -- a handler of this UpdateTime starts a Reset / UpdateTime in another goroutine and waits a bounded
+      -- time for it: the call is blocked until this UpdateTime returns and takes effect right after it
+      match timersSite? site, timersCall? o with
+      | some s, some call =>
+        let ev := Ev.overlapped t s call
+        let atoms := ev.atoms et
+        (afterAtoms et atoms, s!"=> ok {timersShow (runAtoms et atoms) et.dhs.length} started={atoms.length - 1}")
+      | _, _ => (et, "=> bad-op")
+    | none, _ => (et, "=> bad-op")
   | _ => (et, "=> bad-op")
 
 end NeoFS.Driver
